@@ -1497,6 +1497,38 @@ def rule_r13(prog, res):
               '(C12-R5)', 'C12', c12.rule_r5, prog, Result)
 
 
+# ------------------------------------------------------------------ R14
+def rule_r14(prog, res):
+    res.rule('R14', 'the transport keeps the size limits it was given: '
+             'HttpBase.__init__ stores max_content_length and block_length '
+             'as the parameters themselves (0 is a limit, not "unset")')
+    h = prog.cls('spyne.server.http:HttpBase')
+    f = h.methods.get('__init__')
+    if f is None:
+        raise AnalysisError('HttpBase.__init__', 'not found')
+    n = 0
+    for a in walk_no_defs(f.node):
+        if not isinstance(a, ast.Assign):
+            continue
+        for t in a.targets:
+            if isinstance(t, ast.Attribute) and unparse(t.value) == 'self' \
+                    and t.attr in ('max_content_length', 'block_length'):
+                n += 1
+                ok = isinstance(a.value, ast.Name) and a.value.id == t.attr
+                where = '%s:%d' % (f.module.relpath, a.lineno)
+                res.ob('R14', where, 'HttpBase.__init__ stores %s = %s' % (
+                    t.attr, unparse(a.value)), 'ok' if ok else 'VIOLATED')
+                if not ok:
+                    res.finding('R14', 'HttpBase.__init__|limit-rewritten|%s'
+                                % t.attr, where, 'self.%s is stored as %s, '
+                                'not as the configured value: with '
+                                'max_content_length=0 (accept no body) the '
+                                'guards of the bounded reader compare with '
+                                'another number, the body is read and the '
+                                'method runs' % (t.attr, unparse(a.value)))
+    res.floor('R14', 'limit stores in HttpBase.__init__', n, 2)
+
+
 def run(prog, res, tier):
     res.run_rule(rule_r1, prog, res)
     res.run_rule(rule_r2, prog, res)
@@ -1511,11 +1543,17 @@ def run(prog, res, tier):
     res.run_rule(rule_r11, prog, res)
     res.run_rule(rule_r12, prog, res)
     res.run_rule(rule_r13, prog, res)
+    res.run_rule(rule_r14, prog, res)
 
 
 _W = 'spyne/server/wsgi.py'
 
 MUTANTS = [
+    Mutant('zero-limit-taken-for-unset', 'R14', 'fire', 'spyne/server/http.py',
+           in_func('HttpBase.__init__',
+                   "self.max_content_length = max_content_length\n",
+                   "self.max_content_length = max_content_length or 2 * 1024 "
+                   "* 1024\n"), 'limit-rewritten'),
     Mutant('content-length-unparsed', 'R12', 'fire', _W,
            in_func('WsgiApplication.__wsgi_input_to_iterable',
                    "            except ValueError:\n", "            except "
